@@ -589,6 +589,7 @@ func badPacketsBody(maxSeq int) nd.Body {
 // localCloseBody: data arriving for a stream the application closed locally.
 func localCloseBody(c *nd.Ctx) nd.Result {
 	carrier := []string{"iq", "message"}[c.Choose(2, "carrier")]
+	racing := c.Choose(2, "data-arrives-while-closing") == 1
 	ns := stanza.NSClient
 	var env *vsess.Env
 	var setupErr, closeErr error
@@ -609,14 +610,25 @@ func localCloseBody(c *nd.Ctx) nd.Result {
 			closeErr = err
 			return
 		}
-		closeErr = conn.Close()
-		env.PeerWrite(dataPacket(carrier, "late", "s1", 0, []byte("late")) + "</stream:stream>")
+		if racing {
+			// the packet is on its way when the application closes: the serve
+			// loop handles it while Close runs
+			env.PeerWrite(dataPacket(carrier, "late", "s1", 0, []byte("late")))
+			closeErr = conn.Close()
+			env.PeerWrite("</stream:stream>")
+		} else {
+			closeErr = conn.Close()
+			env.PeerWrite(dataPacket(carrier, "late", "s1", 0, []byte("late")) + "</stream:stream>")
+		}
 		vsess.Wait("serve-done", func() bool { return env.ServeDone })
 	})
 	if setupErr != nil {
 		panic(setupErr)
 	}
 	desc := "data for a locally closed stream, carrier=" + carrier
+	if racing {
+		desc = "data arriving while the stream is closed locally, carrier=" + carrier
+	}
 	res := nd.Result{Outcome: out.Kind, NonTrivial: desc}
 	wire := ""
 	if env != nil {
@@ -629,6 +641,8 @@ func localCloseBody(c *nd.Ctx) nd.Result {
 		res.Violation = &nd.Violation{Sig: "closed-sid-local:" + out.Kind, Msg: fmt.Sprintf("%s: %v", desc, out.Blocked)}
 	case closeErr != nil:
 		res.Violation = &nd.Violation{Sig: "closed-sid-local:close-error", Msg: fmt.Sprintf("%s: %v", desc, closeErr)}
+	case racing:
+		// accepted or refused, depending on who came first
 	case !strings.Contains(wire, `id="late"`) || !strings.Contains(wire[strings.Index(wire, `id="late"`)-80:], `type="error"`):
 		res.Violation = &nd.Violation{Sig: "closed-sid-local:not-refused", Msg: fmt.Sprintf("%s: the packet was not refused with a stanza error; wire %q", desc, wire)}
 	}
